@@ -518,6 +518,20 @@ class EntryGraph:
 
     def _build_ctx_tree(self):
         root = self._new_ctx(self.root_key, None, None)
+        self._expand_ctx(root)
+
+    def _const_term(self, key):
+        """value of a constant item whose initialiser body was extracted (tables / structs over workspace types and function pointers):
+        the body is evaluated like a call without arguments, const fn calls in it are walked"""
+        ct = self.__dict__.setdefault('_const_terms', {})
+        if key not in ct:
+            ct[key] = ('opaque', 'const-cycle')
+            c = self._new_ctx(key, None, None)
+            self._expand_ctx(c)
+            ct[key] = self.return_term(c)
+        return ct[key]
+
+    def _expand_ctx(self, root):
         stack = [root]
         while stack:
             c = stack.pop()
@@ -624,6 +638,8 @@ class EntryGraph:
                 return self._promoted_term(ctx, o['promoted'], pb)
             if 'fn' in o:
                 return ('fn', o['fn'], o.get('fnkey'))
+            if o.get('cbody') in self.crate.inst:
+                return self._const_term(o['cbody'])
             if 'item' in o:
                 return ('const', o['v'], o['item'])
             return ('const', o['v'])
@@ -663,6 +679,12 @@ class EntryGraph:
             if 'f' in e:
                 base = self.proj_field(base, e['n'] or str(e['f']), e['f'], variant)
                 variant = None
+            elif 'ci' in e:
+                # element at a constant position (written by the iterator rewrites for statically known arrays)
+                b_ = base
+                while b_[0] == 'cast':
+                    b_ = b_[3]
+                base = b_[1][e['ci']] if b_[0] == 'array' and e['ci'] < len(b_[1]) else ('index', base, 'const %d' % e['ci'])
             else:
                 base = ('index', base, e.get('o'))
         if variant is not None:
